@@ -108,9 +108,29 @@ def gen_twin_screen(w, model, single_sample_plates=False):
     return dict(control=control, arity=2, rows=rows)
 
 
+def _gen_many_rows_c04(w, s, f):
+    conds = [(f"d{i}", 1.0) for i in range(6)]
+    rows = []
+    for k in range(22):  # 22 unobserved plates of 3 000 wells
+        smp = f"s{k % 3}"
+        for _ in range(3000):
+            a, b = w.sample(conds, 2)
+            rows.append([smp, [[a[0], a[1]], [b[0], b[1]]], round(w.uniform(0.05, 0.95), 3), f"p{k:02d}", False])
+    for k in range(3):  # the observed plates come last
+        for _ in range(100):
+            a, b = w.sample(conds, 2)
+            rows.append([f"s{k}", [[a[0], a[1]], [b[0], b[1]]], round(w.uniform(0.05, 0.95), 3), f"z_init{k}", True])
+    return dict(engine="twinsim", prop="C04", model=w.choice(["sdc", "sdci"]), screen=dict(control="", arity=2, rows=rows, layout="C"),
+                many_rows=True, n_chains=1, n_samples=3, burnin=0, thin=1, D=1, seed=s.randrange(1000), dist_chunks=1, score_chunks=1,
+                scorer="SizeScorer", batch=False, policy=None, poison=f.choice(POISONS), poison_seed=f.randrange(2**31),
+                entropy=s.randrange(2**31), order_seed=s.randrange(2**31), failstop="masked-row", second_round=False, model_opts={})
+
+
 def gen_plan(prop, run_seed, tier):
     F = Forks(run_seed)
     w, s, f = F.fork("workload"), F.fork("schedule"), F.fork("faults")
+    if prop == "C04" and w.random() < 0.02:
+        return _gen_many_rows_c04(w, s, f)
     if prop == "C04":
         model = w.choice(["sdc", "sdc", "sdci"])
         policy = s.choice([None, None, "kper"])
@@ -302,6 +322,12 @@ def _c04(plan, scratch, log, stats, violation):
     screen = gen.make_screen(plan["screen"])
     rows = ref.content_rows(screen)
     ids = ref.row_ids(screen)
+    if plan.get("many_rows"):
+        # more experiments than a 16-bit row number holds, the observed ones LAST (as after unobserved.combine(observed)):
+        # only the in-process round (training hand-over, distances, scores, selection on one Screen object) is affordable
+        stats.probe("screen_with_more_than_65536_rows")
+        _object_round(plan, rows, ids, stats, violation, log)
+        return
     n_masked = sum(1 for r in rows if not r[4])
     clean = scratch.file("clean.h5")
     screen.save_h5(clean)
